@@ -223,6 +223,15 @@ theorem T_C17_rotation (w : Rat) (a o l0 f0 : V3) (hN : w * w + V3.dot a a ≠ 0
 
 example : (3 : Rat) * 3 + V3.dot (⟨1, 2, 2⟩ : V3) ⟨1, 2, 2⟩ ≠ 0 := by c17_unfold; norm_num
 
+/-- the decidable relation the correspondence check uses for arbitrary leader moves (`c17.rvalid`) accepts, with
+    tolerance 0, exactly this follower whenever the move is a rotation about the axis -/
+theorem T_C17_rotation_valid (w : Rat) (a o l0 f0 : V3) (hN : w * w + V3.dot a a ≠ 0) :
+    rotValid a o l0 (rotP w a o l0) f0 (rotationLink w a o f0) 0 = none := by
+  obtain ⟨h1, _, h3, h4, h5⟩ := T_C17_rotation w a o l0 f0 hN
+  have z : absR 0 = 0 := by simp [absR]
+  unfold rotValid
+  simp [h1, h3, h4, h5, z]
+
 /-- `update()` returns a new follower and leaves the leader exactly as the caller set it -/
 theorem T_C17_pure (l : Link) (transform : V3 → V3) :
     (l.update transform).leader = l.leader ∧ (l.update transform).follower = transform l.leader :=
